@@ -714,6 +714,12 @@ func convertMap(m map[string]any) error {
 		curr := queue[0]
 
 		for k, v := range curr {
+			if list, isList := v.([]any); isList {
+				if err := convertSlice(list); err != nil {
+					return err
+				}
+				continue
+			}
 			mm, ok := v.(map[any]any)
 			if !ok {
 				// TODO: do we need to return an error here?
@@ -738,6 +744,35 @@ func convertMap(m map[string]any) error {
 		queue = queue[1:]
 	}
 
+	return nil
+}
+
+// convertSlice converts the map[any]any elements of a list (recursively) to
+// map[string]any so that the executor config stays JSON serializable.
+func convertSlice(list []any) error {
+	for i, v := range list {
+		switch vv := v.(type) {
+		case []any:
+			if err := convertSlice(vv); err != nil {
+				return err
+			}
+		case map[any]any:
+			ret := make(map[string]any)
+			for kk, val := range vv {
+				key, err := parseKey(kk)
+				if err != nil {
+					return fmt.Errorf(
+						"%w: %s", errExecutorConfigMustBeString, err,
+					)
+				}
+				ret[key] = val
+			}
+			if err := convertMap(ret); err != nil {
+				return err
+			}
+			list[i] = ret
+		}
+	}
 	return nil
 }
 
